@@ -91,6 +91,60 @@ func execC20(c Case) string {
 			return "done " + b2s(all)
 		}
 		return filterBits(f) + " " + b2s(all) + " " + b2s(f.IsLoaded())
+	case "reloadatomic": // reloadatomic <k> <iters> <seed>: MatchTxAndUpdate must be atomic with respect to Reload
+		k, iters, seed := atoi(a[0]), atoi(a[1]), atou(a[2])
+		// a transaction with a pay-to-pubkey output whose key is in the "matching" filter
+		key := append([]byte{2}, c20Item(seed, 0, 0)...)
+		key = append(key, make([]byte, 33-len(key))...)
+		tx := wire.NewMsgTx(1)
+		tx.AddTxIn(wire.NewTxIn(wire.NewOutPoint(mkHash(c20Item(seed, 1, 1)), 0), nil))
+		tx.AddTxOut(wire.NewTxOut(1, p2pk(key), wire.TokenData{}))
+		btx := bchutil.NewTx(tx)
+		matching := func() *wire.MsgFilterLoad {
+			f := bloom.LoadFilter(wire.NewMsgFilterLoad(make([]byte, 64), 5, 7, wire.BloomUpdateAll))
+			f.Add(key)
+			return f.MsgFilterLoad()
+		}
+		f := bloom.LoadFilter(matching())
+		zeros := []*wire.MsgFilterLoad{}
+		stop := make(chan struct{})
+		var wg sync.WaitGroup
+		for g := 0; g < k; g++ {
+			wg.Add(1)
+			go func() {
+				defer wg.Done()
+				for {
+					select {
+					case <-stop:
+						return
+					default:
+						f.MatchTxAndUpdate(btx)
+					}
+				}
+			}()
+		}
+		for i := 0; i < iters; i++ {
+			z := wire.NewMsgFilterLoad(make([]byte, 64), 5, 7, wire.BloomUpdateAll)
+			zeros = append(zeros, z)
+			f.Reload(z)
+			f.Reload(matching())
+		}
+		close(stop)
+		wg.Wait()
+		torn := 0
+		for _, z := range zeros {
+			for _, b := range z.Filter {
+				if b != 0 {
+					torn++
+					break
+				}
+			}
+		}
+		if torn > 0 {
+			// an all-zero filter matches nothing, so under any sequential order nothing is ever inserted into it
+			return "torn:" + itoa(torn)
+		}
+		return "ok"
 	case "gcsconc": // gcsconc <n> <k> <seed>
 		n, k, seed := atoi(a[0]), atoi(a[1]), atou(a[2])
 		var key [gcs.KeySize]byte
@@ -153,5 +207,12 @@ func genC20(r *Rng, tier string, emit func(Case)) {
 		e("stress", "reload", append(args, "1")...)
 	}
 	e("gcsconc", "queries", "200", "16", u64s(r.U64()&0xffff))
+	ra := 2
+	if tier == "thorough" {
+		ra = 10
+	}
+	for i := 0; i < ra; i++ {
+		e("reloadatomic", "reload-vs-update", "4", "3000", u64s(r.U64()&0xffff))
+	}
 	_ = strings.Join
 }
